@@ -101,6 +101,11 @@ CHECKS = {
          "Library tier: one uninterrupted run of each operation (commit, receive + ref update, prune, 3-way merge commit; 13 operation instances) on recording stores yields the durable state after every store write; each such state - and each state left by an injected write error - is checked for repository consistency, then the operation is re-run on it and must end where an uninterrupted run ends. CLI tier: the real wrgl command path (commit, merge ff / no-ff / 3-way, pull from the reference server, prune) runs as a subprocess built with a crash hook in the Badger and SQLite store write paths and is killed at the k-th write for every k; the repository is reopened, checked, the command re-run and the result compared with an uninterrupted run.",
          "Trusted: each store write is atomic (Badger Update / one SQL statement or transaction), so 'died between two writes' is the crash model; torn writes and fsync reordering inside Badger/SQLite are not modelled. The crash hook is applied by build-time overlay (fail-closed).",
          "DESIGN.md §4 C13"),
+ "C16": ("model_checking",
+         "stateless model checking of the real goroutine pipelines under a controlled cooperative scheduler: DFS over scheduler decisions with preemption / delay bounding, vector-clock race detection",
+         "A build-time overlay routes every go statement, channel send / receive / range / close, reflect.Select, WaitGroup and Mutex operation of the ingest worker pool, sorter producer, differ, merger and row collector through a scheduler that runs one goroutine at a time and keeps channel contents itself; the explorer enumerates every schedule within the stated preemption (or, for the five-thread merger, delay) bound, including which ready select case fires and the iteration order of the merger's map. Each complete schedule must terminate, avoid send-on-closed / double close / deadlock, be free of happens-before races on the inserter's shared fields, return the single-worker result and surface injected store errors. Every explored schedule is an execution of the repository's code.",
+         "Trusted: the scheduler shim (450 lines) and the textual rewrite rules (fail-closed when a construct is not matched, and the overlaid build must compile). Sequential consistency at the granularity of rewritten operations; <= 3 workers, <= 3 blocks; Badger / progress-bar goroutines are outside the scheduler.",
+         "DESIGN.md §4 C16"),
 }
 
 NOT_YET = {}
